@@ -2,7 +2,12 @@
  * (mps_polynomial_feval / deval / meval) and export value and error estimate EXACTLY.
  *
  * stdin protocol (tokens separated by blanks; rationals "NUM/DEN" or "NUM" in base 16):
- *   P M n  r0 i0 r1 i1 ... rn in      new monomial polynomial (n+1 complex rational coefficients, degree 0 first)
+ *   P M n  r0 i0 r1 i1 ... rn in      new monomial polynomial (n+1 complex rational coefficients, degree 0 first),
+ *                                     coefficients set with mps_monomial_poly_set_coefficient_q
+ *   P Mi n ...                        same, through mps_monomial_poly_set_coefficient_int (integers that fit a long long)
+ *   P Md n ...                        same, through mps_monomial_poly_set_coefficient_d   (values that are doubles)
+ *   P Mf n prec ...                   same, through mps_monomial_poly_set_coefficient_f   (mpc_t of `prec` bits)
+ *   P Ms n s0 t0 s1 t1 ...            same, through mps_monomial_poly_set_coefficient_s   (decimal strings, passed verbatim)
  *   P C n  r0 i0 ... rn in            new Chebyshev-basis polynomial
  *   P S n  ar0 ai0 br0 bi0 ...        new secular equation sum a_i/(x-b_i) - 1  (n terms)
  *       the polynomial becomes the context's input polynomial (mps_context_set_input_poly)
@@ -68,7 +73,7 @@ int main (void)
       if (!c) continue;
       if (c[0] == 'P' || c[0] == 'Q')
         {
-          char kind = tok ()[0]; int n = atoi (tok ()); int i;
+          char *kt = tok (); char kind = kt[0]; char setter = kt[1] ? kt[1] : 'q'; int n = atoi (tok ()); int i;
           int install = (c[0] == 'P');
           if (install)
             {
@@ -80,7 +85,28 @@ int main (void)
           if (kind == 'M')
             {
               mps_monomial_poly *p = mps_monomial_poly_new (ctx, n);
-              for (i = 0; i <= n; i++) { tokq (qr); tokq (qi); mps_monomial_poly_set_coefficient_q (ctx, p, i, qr, qi); }
+              long fprec = (setter == 'f') ? atol (tok ()) : 0;
+              for (i = 0; i <= n; i++)
+                {
+                  if (setter == 's')
+                    {
+                      char *sr = strdup (tok ()); char *si = strdup (tok ());
+                      mps_monomial_poly_set_coefficient_s (ctx, p, i, sr, si);
+                      free (sr); free (si);
+                      continue;
+                    }
+                  tokq (qr); tokq (qi);
+                  if (setter == 'q') mps_monomial_poly_set_coefficient_q (ctx, p, i, qr, qi);
+                  else if (setter == 'i')
+                    mps_monomial_poly_set_coefficient_int (ctx, p, i, (long long)mpz_get_si (mpq_numref (qr)), (long long)mpz_get_si (mpq_numref (qi)));
+                  else if (setter == 'd') mps_monomial_poly_set_coefficient_d (ctx, p, i, mpq_get_d (qr), mpq_get_d (qi));
+                  else if (setter == 'f')
+                    {
+                      mpc_t c; mpc_init2 (c, fprec); mpc_set_q (c, qr, qi);
+                      mps_monomial_poly_set_coefficient_f (ctx, p, i, c); mpc_clear (c);
+                    }
+                  else { fprintf (stderr, "c14_eval: unknown setter %c\n", setter); return 3; }
+                }
               poly = MPS_POLYNOMIAL (p); is_mono = 1;
             }
           else if (kind == 'C')
